@@ -243,6 +243,56 @@ def run (ctx):
     else:
       ctx.ob('R-AGREE', si, "Select keeps its timeout argument", outs == {(4, 5)}, "Select(r, w, x, 5) -> 4 arguments, timeout 5" if outs == {(4, 5)} else
              "for Select(rlist, wlist, xlist, 5) the stored argument list is (length, timeout) = %s: the timeout is dropped, so a task waiting with a timeout on an idle socket is never resumed" % sorted(outs, key=str), si, 'D4')
+  # the epoll variant of the hub's select: the mask registered for a descriptor is what the three lists of *this* call ask for.
+  # Evaluated on the helper that merges one list into the pending changes: descriptor 5 is registered for reading, has just left
+  # the read list (pending mask 0) and now enters the write list -> pending mask must be EPOLLOUT alone
+  try: em_ = repo.mod('lib.epoll_select')
+  except Exception: em_ = None
+  ec_ = em_.classes.get('EpollSelect') if em_ is not None else None
+  es_ = ec_.methods.get('select') if ec_ is not None else None
+  if es_ is not None:
+    ctx.analysed(es_)
+    mt_ = q.nested_defs(es_.node).get('modify_table')
+    if mt_ is not None:
+      mtn = getattr(mt_, 'node', mt_)
+      ps_ = [a.arg for a in mtn.args.args]
+      gm_ = q.cfg_of(mt_)
+      outs = set()
+      for pend, reg, lst, old, op, want in (({5: 0}, {5: 1}, [5], set(), 4, {5: 4}), ({}, {5: 1}, [5], set(), 4, {5: 5}), ({5: 5}, {5: 1}, [], {5}, 4, {5: 1}), ({}, {}, [7], set(), 1, {7: 1})):
+        if len(ps_) != 3: outs.add('?'); break
+        env_ = q.Env({'modify': dict(pend), 'self.registered': dict(reg), ps_[0]: list(lst), ps_[1]: set(old), ps_[2]: op}, [((lambda e: isinstance(e, ast.Call) and call_name(e) == 'hasattr'), False)])
+        got = set()
+        for p_, e_ in q.paths_under(repo, em_, gm_, env_, gm_.entry, [n for n in gm_.nodes if n.kind == 'return'], ec_, limit=40):
+          m_ = e_.exact.get('modify')
+          got.add(tuple(sorted(m_.items())) if isinstance(m_, dict) else '?')
+        if len(got) != 1 or '?' in got: outs.add('?')
+        elif dict(list(got)[0]) != want: outs.add((tuple(sorted(pend.items())), tuple(sorted(reg.items())), tuple(lst), op, tuple(sorted(dict(list(got)[0]).items())), tuple(sorted(want.items()))))
+      if '?' in outs:
+        ctx.undecided('R-AGREE', es_, "epoll masks follow the lists of the current call", "modify_table not evaluable on the samples", es_, 'D4')
+      else:
+        ctx.ob('R-AGREE', es_, "epoll masks follow the lists of the current call", not outs, "4 scenarios" if not outs else
+               "with pending changes %s, registered %s, list %s and op %s the helper leaves %s, expected %s: a descriptor that left the read list and entered the write list in the same call stays registered for reading - "
+               "epoll reports it readable and _select indexes a waiter that is not there (KeyError ends the hub)" % sorted(outs, key=str)[0], es_, 'D4')
+  # a variable that an except-handler inside a loop sets, and that the rest of the iteration tests, starts every iteration fresh
+  for fn_ in [f_ for c_ in mod.classes.values() for f_ in c_.methods.values()]:
+    gf_ = q.cfg_of(fn_)
+    for st_, h_, a_ in gf_.loop_nodes:
+      body_ids = set(id(x) for b in st_.body for x in ast.walk(b))
+      for hd in [x for b in st_.body for x in ast.walk(b) if isinstance(x, ast.ExceptHandler)]:
+        set_in_handler = set(t.id for b in hd.body for x in ast.walk(b) if isinstance(x, ast.Assign) for t in x.targets if isinstance(t, ast.Name))
+        for v_ in sorted(set_in_handler):
+          tests = [n for n in gf_.nodes if n.kind == 'cond' and id(n.ast) in body_ids and not any(n.ast is y for b in hd.body for y in ast.walk(b))
+                   and any(isinstance(x, ast.Name) and x.id == v_ for x in ast.walk(n.ast))
+                   and (isinstance(n.ast, ast.Name) or (isinstance(n.ast, ast.Compare) and isinstance(n.ast.ops[0], (ast.Is, ast.IsNot)) and isinstance(n.ast.comparators[0], ast.Constant) and n.ast.comparators[0].value is None))]
+          if not tests: continue
+          fresh = [q.enclosing_stmt_node(gf_, x) for b in st_.body for x in ast.walk(b) if isinstance(x, ast.Assign) and any(isinstance(t, ast.Name) and t.id == v_ for t in x.targets)
+                   and not any(x is y for b2 in hd.body for y in ast.walk(b2))]
+          fresh = [n for n in fresh if n is not None]
+          for tn in tests:
+            ok_ = any(gf_.dominates(d, tn) and gf_.dominates(h_, d) for d in fresh)
+            ctx.ob('R-DEF', fn_, "`%s`, set by an except clause in the loop and tested as `%s`, is reset in every iteration" % (v_, norm(tn.ast)[:30]), ok_, "assigned afresh inside the loop before the test" if ok_ else
+                   "`%s` is only initialised before the loop: once an iteration's handler has set it, every later iteration still sees it - an exception that was already delivered is thrown into the sub-task again on its next blocking operation"
+                   % v_, (mod, tn.ast), 'D6')
   # ---- D5 Timer ------------------------------------------------------------------------------------------
   tm = repo.cls(RC, 'Timer'); tr = q.find_method(repo, tm, 'run', 'C06'); ctx.analysed(tr)
   # a relative timer is anchored to the moment it is started, not constructed
